@@ -3,6 +3,7 @@
 //@item src/bytewise/builder.rs struct DoubleArrayAhoCorasickBuilder
 //@include ghost_build_bw.rs
 //@include ghost_nfa.rs
+//@include ghost_bwb.rs
 
 //@impl src/bytewise/builder.rs impl DoubleArrayAhoCorasickBuilder
 //@fn init_array
@@ -67,32 +68,70 @@
     ensures b_inv(*final(self), *helper), final(self).states@.len() == old(self).states@.len(),
         final(self).num_free_blocks == old(self).num_free_blocks, final(self).match_kind == old(self).match_kind,
         forall|i: int| 0 <= i < old(self).states@.len() ==> (#[trigger] final(self).states@[i]).base == old(self).states@[i].base
-            && final(self).states@[i].fail == old(self).states@[i].fail && st_opos(final(self).states@[i]) == st_opos(old(self).states@[i])
+            && final(self).states@[i].fail == old(self).states@[i].fail && st_opos(final(self).states@[i]) == st_opos(old(self).states@[i]),
+        // stage B: only the CHECK of free slots of this block changes, and afterwards the block is sane
+        forall|x: int| 0 <= x < old(self).states@.len() && !(in_block(x, block_idx as int) && hfree(*helper, x)) ==>
+            st_check(#[trigger] final(self).states@[x]) == st_check(old(self).states@[x]),
+        hb_sane(final(self).states@, *helper, block_idx as int),
 //@}
 //@start{
+    let ghost kb = block_idx as int;
     proof {
         lemma_window(*helper);
         let k = block_idx as int; let nb = helper.num_blocks as int;
         assert((k + 1) * 256 <= nb * 256) by (nonlinear_arith) requires k + 1 <= nb;
+        assert((k + 1) * 256 == k * 256 + 256) by (nonlinear_arith);
     }
 //@}
+//@loopiter 1 it
 //@loop 1{
     invariant b_inv(*self, *helper), self.states@.len() == old(self).states@.len(),
         self.num_free_blocks == old(self).num_free_blocks, self.match_kind == old(self).match_kind,
         h_lo(*helper) % 256 == 0, h_hi(*helper) % 256 == 0, 0 <= h_lo(*helper), h_hi(*helper) <= u32::MAX,
         h_active(*helper, unused_base as int),
         forall|i: int| 0 <= i < old(self).states@.len() ==> (#[trigger] self.states@[i]).base == old(self).states@[i].base
-            && self.states@[i].fail == old(self).states@[i].fail && st_opos(self.states@[i]) == st_opos(old(self).states@[i])
+            && self.states@[i].fail == old(self).states@[i].fail && st_opos(self.states@[i]) == st_opos(old(self).states@[i]),
+        kb == block_idx as int, in_block(unused_base as int, kb), !h_used_base(*helper, unused_base as int),
+        h_lo(*helper) <= kb * 256, kb * 256 + 256 <= h_hi(*helper),
+        it.snapshot@.remaining().len() == 256,
+        forall|d: int| 0 <= d < 256 ==> it.snapshot@.remaining()[d] == d as u8,
+        forall|x: u32| in_block(x as int, kb) && hfree(*helper, x as int) && ((unused_base ^ x) as u8 as int) < it.index@ ==>
+            st_check(#[trigger] self.states@[x as int]) == (unused_base ^ x) as u8,
+        forall|x: int| 0 <= x < old(self).states@.len() && !(in_block(x, kb) && hfree(*helper, x)) ==>
+            st_check(#[trigger] self.states@[x]) == st_check(old(self).states@[x]),
 //@}
 //@before 1 let idx = unused_base ^ u32::from(c);{
-    proof { lemma_same_block(unused_base, c, h_lo(*helper), h_hi(*helper)); }
+    let ghost st_b = self.states@;
+    proof { lemma_same_block(unused_base, c, h_lo(*helper), h_hi(*helper)); lemma_same_block(unused_base, c, kb * 256, kb * 256 + 256); }
+//@}
+//@after 1 if idx == ROOT_STATE_IDX || idx == DEAD_STATE_IDX || !helper.is_used_index(idx) {{
+    proof {
+        assert(c as int == it.index@);
+        assert forall|x: u32| in_block(x as int, kb) && hfree(*helper, x as int) && ((unused_base ^ x) as u8 as int) < it.index@ + 1 implies
+            st_check(#[trigger] self.states@[x as int]) == (unused_base ^ x) as u8 by {
+            lemma_sanitise_bits(unused_base, x, c);
+            assert(x as int / 256 == kb && unused_base as int / 256 == kb);
+            if (unused_base ^ x) as u8 == c { assert(x == idx); } else { assert(x != idx); assert(self.states@[x as int] == st_b[x as int]); }
+        }
+        assert forall|x: int| 0 <= x < old(self).states@.len() && !(in_block(x, kb) && hfree(*helper, x)) implies
+            st_check(#[trigger] self.states@[x]) == st_check(old(self).states@[x]) by {
+            if x != idx as int { assert(self.states@[x] == st_b[x]); }
+        }
+        assert forall|i: int| 0 <= i < old(self).states@.len() implies (#[trigger] self.states@[i]).base == old(self).states@[i].base
+            && self.states@[i].fail == old(self).states@[i].fail && st_opos(self.states@[i]) == st_opos(old(self).states@[i]) by {
+            if i != idx as int { assert(self.states@[i] == st_b[i]); }
+        }
+    }
+//@}
+//@after 1 for c in{
+    proof { assert(hb_wit(self.states@, *helper, kb, unused_base)); }
 //@}
 //@fn find_base
 //@rules R3own
 //@ret r
 //@head{
     requires b_inv(*self, *helper), labels@.len() > 0
-    ensures r@ == self.states@.len()
+    ensures r@ > 0, r@ == self.states@.len()
         || (h_active(*helper, r@ as int) && !h_used_base(*helper, r@ as int)
             && forall|i: int| 0 <= i < labels@.len() ==> !h_used_index(*helper, (r@ ^ (#[trigger] labels@[i]) as u32) as int))
 //@}
@@ -126,16 +165,31 @@
                         && final(self).states@[i].fail == old(self).states@[i].fail && st_opos(final(self).states@[i]) == st_opos(old(self).states@[i])
                 &&& forall|i: int| old(self).states@.len() <= i < final(self).states@.len() ==> (#[trigger] final(self).states@[i]).base.is_none()
                         && final(self).states@[i].fail == 0 && final(self).states@[i].opos_ch.0 == 0
+                // stage B: at most one block leaves the window, and it is sanitised on the way out
+                &&& h_lo(*final(helper)) == h_lo(*old(helper)) || h_lo(*final(helper)) == h_lo(*old(helper)) + 256
+                &&& h_hi(*final(helper)) == h_hi(*old(helper)) + 256
+                &&& forall|x: int| 0 <= x < old(self).states@.len() && !(h_lo(*final(helper)) > h_lo(*old(helper)) && in_block(x, h_lo(*old(helper)) / 256) && hfree(*old(helper), x)) ==>
+                        st_check(#[trigger] final(self).states@[x]) == st_check(old(self).states@[x])
+                &&& h_lo(*final(helper)) > h_lo(*old(helper)) ==> hb_sane(final(self).states@, *old(helper), h_lo(*old(helper)) / 256)
             },
             Err(e) => e is AutomatonScale,
         }
 //@}
 //@start{
     let ghost h0 = *helper;
+    let ghost mut kbd: int = -1;
     proof { lemma_window(h0); }
 //@}
 //@before 1 self.remove_invalid_checks(closed_block_idx, helper);{
-    proof { assert(closed_block_idx as int * 256 == h_lo(h0)); }
+    proof { assert(closed_block_idx as int * 256 == h_lo(h0)); kbd = closed_block_idx as int; }
+//@}
+//@before 1 helper.push_block()?;{
+    let ghost sr = self.states@;
+    proof {
+        let nb = h0.num_blocks as int; let nf = h0.num_free_blocks as int;
+        assert((kbd >= 0) == (nb >= nf));
+        if kbd >= 0 { assert(kbd * 256 == h_lo(h0)); assert(h_lo(h0) / 256 == kbd); assert(hb_sane(sr, h0, kbd)); }
+    }
 //@}
 //@after 1 helper.push_block()?;{
     let ghost s1 = self.states@;
@@ -171,6 +225,34 @@
                         && self.states@[i].fail == old(self).states@[i].fail && st_opos(self.states@[i]) == st_opos(old(self).states@[i]) by {
             assert(self.states@[i] == s1[i]);
         }
+        // stage B
+        let nb = h0.num_blocks as int; let nf = h0.num_free_blocks as int;
+        assert(s1 == sr);
+        if nb >= nf {
+            assert(h_lo(h0) == kbd * 256 && kbd == nb - nf);
+            assert(h_lo(*helper) == (nb + 1 - nf) * 256);
+        } else { assert(h_lo(*helper) == 0 && h_lo(h0) == 0); }
+        assert forall|x: int| 0 <= x < old(self).states@.len() && !(h_lo(*helper) > h_lo(h0) && in_block(x, h_lo(h0) / 256) && hfree(h0, x)) implies
+                st_check(#[trigger] self.states@[x]) == st_check(old(self).states@[x]) by {
+            assert(self.states@[x] == sr[x]);
+        }
+        if h_lo(*helper) > h_lo(h0) {
+            let kb = h_lo(h0) / 256;
+            assert(hb_sane(sr, h0, kb));
+            assert(kb * 256 + 256 <= sr.len());
+            if exists|u: u32| hb_wit(sr, h0, kb, u) {
+                let u = choose|u: u32| hb_wit(sr, h0, kb, u);
+                assert forall|x: u32| in_block(x as int, kb) && hfree(h0, x as int) implies st_check(#[trigger] self.states@[x as int]) == (u ^ x) as u8 by {
+                    assert(self.states@[x as int] == sr[x as int]);
+                }
+                assert(hb_wit(self.states@, h0, kb, u));
+            } else {
+                assert(forall|u: int| in_block(u, kb) ==> h_used_base(h0, u));
+            }
+            assert(hb_sane(self.states@, h0, kb));
+        }
+        assert(h_lo(*helper) == h_lo(h0) || h_lo(*helper) == h_lo(h0) + 256);
+        assert(h_hi(*helper) == h_hi(h0) + 256);
     }
 //@}
 //@fn build_double_array
@@ -187,6 +269,8 @@
             &&& final(self).states@.len() > 0 && final(self).states@.len() % 256 == 0 && final(self).states@.len() <= u32::MAX
             &&& forall|i: int| 0 <= i < final(self).states@.len() ==> ((#[trigger] final(self).states@[i]).base.is_some() ==> final(self).states@[i].base.unwrap()@ < final(self).states@.len())
             &&& forall|i: int| 0 <= i < final(self).states@.len() ==> (#[trigger] final(self).states@[i]).fail < final(self).states@.len()
+            // stage B: the array encodes the NFA (edges present, no spurious edge, fail/output_pos copied)
+            &&& exists|idmap: Seq<u32>| bw_encodes(final(self).states@, *nfa, idmap)
         },
         Err(e) => e is AutomatonScale,
     }
@@ -196,11 +280,17 @@
     let ghost n = nfa.states@.len() as int;
     let ghost mut done: Set<int> = Set::empty();
     let ghost mut gstack: Seq<u32> = seq![0u32];
+    let ghost mut inv: Map<int, int> = Map::empty();
+    let ghost mut bowner: Map<int, int> = Map::empty();
+    let ghost mut placed: Set<u8> = Set::empty();
 //@}
 //@after 1 let mut labels = vec![];{
     proof {
         assert(stack@ =~= seq![0u32]);
         assert(stack@.contains(0u32)) by { assert(stack@[0] == 0u32); }
+        lemma_bwb_init(*nfa, self.states@, state_id_map@);
+        assert(glue(helper, inv, bowner));
+        assert(closed_sane(self.states@, inv, bowner, h_lo(helper)));
     }
 //@}
 //@loop 1{
@@ -214,6 +304,10 @@
         forall|k: int| 0 <= k < stack@.len() ==> (#[trigger] stack@[k]) < n && stack@[k] != 1 && state_id_map@[stack@[k] as int] != 1,
         forall|s: int, c: u8| done.contains(s) && #[trigger] nfa_edges(*nfa, s).contains_key(c) ==> 0 <= s < n && state_id_map@[nfa_edges(*nfa, s)[c] as int] != 1,
         forall|s: int| 0 <= s < n && s != 1 && #[trigger] state_id_map@[s] != 1 ==> done.contains(s) || stack@.contains(s as u32),
+        // stage B
+        bwb(*nfa, self.states@, state_id_map@, inv, bowner, done, -1, 0, Set::empty()), glue(helper, inv, bowner),
+        closed_sane(self.states@, inv, bowner, h_lo(helper)),
+        stack@.no_duplicates(), forall|k: int| 0 <= k < stack@.len() ==> !done.contains(#[trigger] stack@[k] as int),
     ensures stack@.len() == 0,
 //@}
 //@before 1 assert!(state_id != DEAD_STATE_ID);{
@@ -225,18 +319,36 @@
             let k = choose|k: int| 0 <= k < gstack.len() && gstack[k] == x;
             assert(stack@[k] == x);
         }
+        assert forall|k: int| 0 <= k < stack@.len() implies #[trigger] stack@[k] != state_id by {
+            assert(gstack[k] == stack@[k] && gstack[gstack.len() - 1] == state_id);
+        }
+        assert(stack@.no_duplicates());
+        assert(!done.contains(sid)) by { assert(gstack[gstack.len() - 1] == state_id); }
+        assert(state_id < n && state_id != 1 && state_id_map@[sid] != 1) by { assert(gstack[gstack.len() - 1] == state_id); }
     }
 //@}
 //@before 1 continue;{
     proof {
         // a leaf: nothing to place, the state is done
-        done = done.insert(sid);
         assert(forall|c: u8| !edges.contains_key(c)) by { assert(edges.dom().len() == 0); assert(edges.dom() =~= Set::<u8>::empty()); }
+        lemma_bwb_leaf(*nfa, self.states@, state_id_map@, inv, bowner, done, sid);
+        done = done.insert(sid);
         gstack = stack@;
     }
 //@}
+//@before 1 self.states[state_idx].set_base(base);{
+    let ghost states_b = self.states@;
+    let ghost h_b = helper;
+//@}
 //@after 1 helper.use_base(base);{
     proof {
+        // stage B: all children placed, the state gets its BASE
+        assert(forall|c: u8| edges.contains_key(c) ==> placed.contains(c));
+        lemma_window(h_b);
+        lemma_bwb_finish(*nfa, states_b, self.states@, state_id_map@, inv, bowner, done, sid, base, placed, labels@[0]);
+        lemma_glue_base(h_b, helper, inv, bowner, base@ as int, sid);
+        lemma_closed_frame(states_b, self.states@, inv, inv, bowner, bowner.insert(base@ as int, sid), h_lo(helper));
+        bowner = bowner.insert(base@ as int, sid);
         done = done.insert(sid);
         gstack = stack@;
     }
@@ -259,13 +371,16 @@
 //@before 1 let base = self.find_base(&labels, &helper);{
     proof {
         assert(labels@.len() > 0);
+        assert(edges.contains_key(labels@[0])) by { assert(labels@.to_set().contains(labels@[0])); }
     }
     let ghost len0 = self.states@.len();
     let ghost h0 = helper;
+    let ghost st0 = self.states@;
 //@}
 //@before 1 let verif_iter2 = s.edges.iter();{
     proof {
         lemma_window(helper);
+        lemma_window(h0);
         assert(base@ < self.states@.len());
         // every child slot is vacant and active
         assert forall|c: u8| edges.contains_key(c) implies h_active(helper, (base@ ^ (c as u32)) as int) && !h_used_index(helper, (base@ ^ (c as u32)) as int) by {
@@ -274,10 +389,18 @@
             if base@ == len0 {
                 lemma_same_block(base@, c, len0 as int, len0 as int + 256);
             } else {
-                lemma_window(h0);
                 lemma_same_block(base@, c, h_lo(h0), h_hi(h0));
             }
         }
+        // stage B: a possibly appended block keeps the encoding; then open the state at `base`
+        if base@ == len0 {
+            lemma_bwb_after_extend(*nfa, st0, self.states@, state_id_map@, inv, bowner, done, h0, helper);
+        }
+        lemma_bwb_facts(*nfa, self.states@, state_id_map@, inv, bowner, done, -1, 0, Set::empty());
+        assert(h_active(helper, base@ as int) && !h_used_base(helper, base@ as int));
+        assert(!bowner.contains_key(base@ as int));
+        lemma_bwb_begin(*nfa, self.states@, state_id_map@, inv, bowner, done, sid, base@);
+        placed = Set::empty();
     }
     let ghost stack0 = stack@;
 //@}
@@ -298,6 +421,8 @@
     let ghost j0 = it3.index@ as int;
     let ghost st_before = stack@;
     let ghost h_before = helper;
+    let ghost states_before = self.states@;
+    let ghost map_before = state_id_map@;
     proof {
         assert(edges.contains_key(c) && edges[c] == child_id);
         lemma_iter_keys_distinct(edges, rem);
@@ -318,6 +443,26 @@
             if (base@ ^ (*rem[j].0 as u32)) == (base@ ^ (c as u32)) { lemma_xor_inj(base@, *rem[j].0, c); }
             assert(h_active(h_before, (base@ ^ (*rem[j].0 as u32)) as int));
         }
+        // stage B: one more child placed
+        let y = child_idx as int;
+        lemma_window(h_before);
+        assert(h_active(h_before, y) && !h_used_index(h_before, y));
+        assert(!inv.contains_key(y) && y >= 2);
+        assert(!placed.contains(c)) by {
+            if placed.contains(c) { let j = choose|j: int| 0 <= j < j0 && *rem[j].0 == c; assert(*rem[j].0 != *rem[j0].0); }
+        }
+        lemma_step_child(*nfa, states_before, map_before, inv, bowner, done, sid, base@, placed, c);
+        lemma_bwb_step(*nfa, states_before, self.states@, map_before, state_id_map@, inv, bowner, done, sid, base@, placed, c);
+        lemma_glue_index(h_before, helper, inv, bowner, y, child_id as int);
+        lemma_closed_frame(states_before, self.states@, inv, inv.insert(y, child_id as int), bowner, bowner, h_lo(helper));
+        inv = inv.insert(y, child_id as int);
+        placed = placed.insert(c);
+        // the child was not placed before, so it is neither on the stack nor finished
+        assert(map_before[child_id as int] == 1);
+        assert forall|k: int| 0 <= k < st_before.len() implies #[trigger] st_before[k] != child_id by { if st_before[k] == child_id { assert(map_before[st_before[k] as int] != 1); } }
+        assert(stack@.no_duplicates());
+        assert(!done.contains(child_id as int));
+        assert(child_id as int != sid);
     }
 //@}
 //@loopiter 3 it3
@@ -328,7 +473,7 @@
         forall|i: int| 0 <= i < n ==> (#[trigger] state_id_map@[i]) < self.states@.len(),
         state_id_map@[0] == 0, state_id_map@[1] == 1,
         forall|x: int| 0 <= x < self.states@.len() ==> (#[trigger] self.states@[x]).fail == 0,
-        base@ < self.states@.len(), h_active(helper, base@ as int), state_idx < self.states@.len(),
+        base@ < self.states@.len(), h_active(helper, base@ as int), state_idx < self.states@.len(), state_idx == state_id_map@[sid],
         ({ let rem = it3.snapshot@.remaining();
            &&& rem.no_duplicates()
            &&& forall|i: int| 0 <= i < rem.len() ==> edges.contains_key(*(#[trigger] rem[i]).0) && edges[*rem[i].0] == *rem[i].1
@@ -338,44 +483,128 @@
            &&& forall|j: int| 0 <= j < it3.index@ ==> state_id_map@[*(#[trigger] rem[j]).1 as int] != 1
            &&& stack@.len() == stack0.len() + it3.index@
            &&& forall|j: int| 0 <= j < it3.index@ ==> stack@[stack0.len() + j] == *(#[trigger] rem[j]).1
+           // stage B: `placed` is the set of labels handled so far
+           &&& forall|j: int| 0 <= j < it3.index@ ==> placed.contains(*(#[trigger] rem[j]).0)
+           &&& forall|c: u8| placed.contains(c) ==> exists|j: int| 0 <= j < it3.index@ && *(#[trigger] rem[j]).0 == c
         }),
         forall|k: int| 0 <= k < stack0.len() ==> stack@[k] == stack0[k],
         forall|k: int| 0 <= k < stack@.len() ==> (#[trigger] stack@[k]) < n && stack@[k] != 1 && state_id_map@[stack@[k] as int] != 1,
         forall|s: int, c: u8| done.contains(s) && #[trigger] nfa_edges(*nfa, s).contains_key(c) ==> 0 <= s < n && state_id_map@[nfa_edges(*nfa, s)[c] as int] != 1,
         forall|s: int| 0 <= s < n && s != 1 && s != sid && #[trigger] state_id_map@[s] != 1 ==> done.contains(s) || stack@.contains(s as u32),
         state_id_map@[sid] != 1,
+        // stage B
+        bwb(*nfa, self.states@, state_id_map@, inv, bowner, done, sid, base@, placed), glue(helper, inv, bowner),
+        closed_sane(self.states@, inv, bowner, h_lo(helper)),
+        stack@.no_duplicates(), forall|k: int| 0 <= k < stack@.len() ==> !done.contains(#[trigger] stack@[k] as int) && stack@[k] != sid,
+        !done.contains(sid),
 //@}
 //@before 1 for i in 0..nfa.states.len(){
     proof {
         assert(stack@.len() == 0);
-        assert forall|t: int| 0 <= t < n && t != 1 implies state_id_map@[t] != 1 by {
+        assert forall|t: int| 0 <= t < n && t != 1 implies #[trigger] state_id_map@[t] != 1 && done.contains(t) by {
             lemma_all_placed(*nfa, state_id_map@, done, t);
+            if !done.contains(t) { assert(stack@.contains(t as u32)); }
+        }
+    }
+    let ghost idm = state_id_map@;
+    proof {
+        // distinct NFA states have distinct slots (so the fail/output_pos writes do not interfere)
+        assert forall|t1: int, t2: int| 0 <= t1 < n && 0 <= t2 < n && t1 != 1 && t2 != 1 && #[trigger] idm[t1] == #[trigger] idm[t2] implies t1 == t2 by {
+            lemma_bwb_map_inj(*nfa, self.states@, idm, inv, bowner, done, t1, t2);
         }
     }
 //@}
 //@loop 4{
     invariant
-        b_inv(*self, helper), nfa_tree(*nfa), n == nfa.states@.len(), state_id_map@.len() == n,
+        b_inv(*self, helper), nfa_tree(*nfa), n == nfa.states@.len(), state_id_map@.len() == n, state_id_map@ == idm,
         forall|i: int| 0 <= i < n ==> (#[trigger] state_id_map@[i]) < self.states@.len(),
-        forall|t: int| 0 <= t < n && t != 1 ==> #[trigger] state_id_map@[t] != 1,
+        forall|t: int| 0 <= t < n && t != 1 ==> #[trigger] state_id_map@[t] != 1 && done.contains(t),
         forall|x: int| 0 <= x < self.states@.len() ==> (#[trigger] self.states@[x]).fail < self.states@.len(),
+        // stage B
+        forall|t1: int, t2: int| 0 <= t1 < n && 0 <= t2 < n && t1 != 1 && t2 != 1 && #[trigger] idm[t1] == #[trigger] idm[t2] ==> t1 == t2,
+        forall|s: int| 0 <= s < i && s != 1 ==> (#[trigger] self.states@[idm[s] as int]).fail == (if nfa.states@[s].fail == 1 { 1u32 } else { idm[nfa.states@[s].fail as int] })
+            && st_opos(self.states@[idm[s] as int]) == opt_u32(nfa.states@[s].output_pos),
+        bwb(*nfa, self.states@, idm, inv, bowner, done, -1, 0, Set::empty()), glue(helper, inv, bowner),
+        closed_sane(self.states@, inv, bowner, h_lo(helper)),
+//@}
+//@before 1 let idx = usize::from_u32(state_id_map[i]);{
+    let ghost st_i = self.states@;
+//@}
+//@after 1 if fail_id == DEAD_STATE_ID {{
+    proof {
+        // only fail / output_pos of one slot changed
+        assert forall|y: int| 0 <= y < st_i.len() implies (#[trigger] self.states@[y]).base == st_i[y].base && st_check(self.states@[y]) == st_check(st_i[y]) by { }
+        lemma_bwb_congr(*nfa, st_i, self.states@, idm, inv, bowner, done, -1, 0, Set::empty());
+        lemma_closed_frame(st_i, self.states@, inv, inv, bowner, bowner, h_lo(helper));
+    }
 //@}
 //@before 1 for closed_block_idx in helper.active_block_range(){
     let ghost rs: int = if helper.num_blocks >= helper.num_free_blocks { helper.num_blocks - helper.num_free_blocks } else { 0 };
     proof { lemma_window(helper); }
 //@}
+//@loopiter 5 it5
 //@loop 5{
     invariant
         b_inv(*self, helper), rs * 256 == h_lo(helper), rs <= closed_block_idx, closed_block_idx < helper.num_blocks || closed_block_idx == helper.num_blocks,
         forall|x: int| 0 <= x < self.states@.len() ==> (#[trigger] self.states@[x]).fail < self.states@.len(),
+        // stage B
+        nfa_tree(*nfa), n == nfa.states@.len(), state_id_map@ == idm,
+        forall|t: int| 0 <= t < n && t != 1 ==> #[trigger] idm[t] != 1 && done.contains(t),
+        forall|s: int| 0 <= s < n && s != 1 ==> (#[trigger] self.states@[idm[s] as int]).fail == (if nfa.states@[s].fail == 1 { 1u32 } else { idm[nfa.states@[s].fail as int] })
+            && st_opos(self.states@[idm[s] as int]) == opt_u32(nfa.states@[s].output_pos),
+        bwb(*nfa, self.states@, idm, inv, bowner, done, -1, 0, Set::empty()), glue(helper, inv, bowner),
+        closed_sane(self.states@, inv, bowner, h_lo(helper)),
+        closed_block_idx == rs + it5.index@, it5.snapshot@.remaining().len() == helper.num_blocks - rs,
+        forall|kb: int| rs <= kb < rs + it5.index@ ==> #[trigger] sane_block(self.states@, inv, bowner, kb),
 //@}
 //@before 1 self.remove_invalid_checks(closed_block_idx, &helper);{
+    let ghost st_r = self.states@;
     proof { assert(rs * 256 <= closed_block_idx as int * 256) by (nonlinear_arith) requires rs <= closed_block_idx; }
 //@}
-//@before 1 Ok(()){
+//@after 1 self.remove_invalid_checks(closed_block_idx, &helper);{
+    proof {
+        let kb0 = closed_block_idx as int;
+        lemma_window(helper);
+        assert((kb0 + 1) * 256 <= helper.num_blocks as int * 256) by (nonlinear_arith) requires kb0 + 1 <= helper.num_blocks as int;
+        lemma_bwb_facts(*nfa, st_r, idm, inv, bowner, done, -1, 0, Set::empty());
+        assert forall|y: int| 0 <= y < st_r.len() implies (#[trigger] self.states@[y]).base == st_r[y].base && (inv.contains_key(y) ==> st_check(self.states@[y]) == st_check(st_r[y])) by {
+            if inv.contains_key(y) && in_block(y, kb0) { assert(h_active(helper, y)); assert(h_used_index(helper, y)); }
+        }
+        lemma_bwb_congr(*nfa, st_r, self.states@, idm, inv, bowner, done, -1, 0, Set::empty());
+        assert forall|x: int| 0 <= x < h_lo(helper) implies st_check(#[trigger] self.states@[x]) == st_check(st_r[x]) by { assert(!in_block(x, kb0)); }
+        lemma_closed_frame(st_r, self.states@, inv, inv, bowner, bowner, h_lo(helper));
+        assert forall|kb: int| rs <= kb < rs + it5.index@ + 1 implies #[trigger] sane_block(self.states@, inv, bowner, kb) by {
+            if kb == kb0 {
+                lemma_hb_to_sane(self.states@, helper, inv, bowner, kb);
+            } else {
+                assert(sane_block(st_r, inv, bowner, kb));
+                assert forall|x: u32| in_block(x as int, kb) implies st_check(#[trigger] self.states@[x as int]) == st_check(st_r[x as int]) by {
+                    assert(!in_block(x as int, kb0));
+                    assert((kb + 1) * 256 <= helper.num_blocks as int * 256) by (nonlinear_arith) requires kb + 1 <= helper.num_blocks as int;
+                }
+                lemma_sane_frame(st_r, self.states@, inv, inv, bowner, bowner, kb);
+            }
+        }
+        assert forall|s: int| 0 <= s < n && s != 1 implies (#[trigger] self.states@[idm[s] as int]).fail == (if nfa.states@[s].fail == 1 { 1u32 } else { idm[nfa.states@[s].fail as int] })
+            && st_opos(self.states@[idm[s] as int]) == opt_u32(nfa.states@[s].output_pos) by {
+            assert(st_r[idm[s] as int].fail == (if nfa.states@[s].fail == 1 { 1u32 } else { idm[nfa.states@[s].fail as int] }));
+        }
+    }
+//@}
+//@before 1 self.states.shrink_to_fit();{
     proof {
         lemma_window(helper);
         assert(self.states@.len() % 256 == 0);
+        assert forall|kb: int| 0 <= kb && kb * 256 + 256 <= self.states@.len() implies #[trigger] sane_block(self.states@, inv, bowner, kb) by {
+            if kb < rs { assert(kb * 256 + 256 <= rs * 256); }
+            else { assert(kb < helper.num_blocks) by { if kb >= helper.num_blocks as int { assert(kb * 256 >= helper.num_blocks as int * 256) by (nonlinear_arith) requires kb >= helper.num_blocks as int; } } }
+        }
+        lemma_bwb_final(*nfa, self.states@, idm, inv, bowner, done);
+    }
+//@}
+//@before 1 Ok(()){
+    proof {
+        assert(bw_encodes(self.states@, *nfa, idm));
     }
 //@}
 //@endimpl
